@@ -272,6 +272,7 @@ def run(ctx):
             part, unbuilt = [], []
     flush(part, unbuilt)
     ctx.note("edges_replayed", ntr[0])
+    many_addresses(ctx)
     # ---- code -> spec: random histories (streamed: every step carries the whole projected storage)
     n, ln = (400, 60) if ctx.quick else (3000, 200)
     done = 0
@@ -288,7 +289,51 @@ def run(ctx):
         done += len(part)
 
 
+def many_addresses(ctx):
+    """one long history beyond the small pool: N distinct addresses auto-created, then each looked up again"""
+    import json
+    from okdmr.dmrlib.storage.repeater_storage import RepeaterStorage
+    n = 2500 if ctx.quick else 12000
+    st = RepeaterStorage()
+    addrs = [("10.%d.%d.%d" % (k >> 16 & 255, k >> 8 & 255, k & 255), 50000 + k % 7) for k in range(n)]
+    objs, first = [], []
+
+    def index(o):
+        if o is None:
+            return 0
+        for i, x in enumerate(objs):
+            if x is o:
+                return i + 1
+        return -next((i + 1 for i, x in enumerate(objs) if x.id == o.id), 99999999)
+    ident = {}
+    for a in addrs:
+        o = st.match_incoming(a, auto_create=True)
+        if o is not None and id(o) not in ident:
+            objs.append(o)
+            ident[id(o)] = len(objs)
+        first.append(ident.get(id(o), 0) if o is not None else 0)
+    fast = lambda o: 0 if o is None else ident.get(id(o)) or index(o)
+    again = [fast(st.match_incoming(a)) for a in addrs]
+    againauto = [fast(st.match_incoming(a, auto_create=True)) for a in addrs]
+    data = {"n": n, "first": first, "again": again, "againauto": againauto, "len": len(st)}
+    path = os.path.join(ctx.rundir, "c20_many.json")
+    json.dump(data, open(path, "w"))
+    ctx.count("many-addresses", 3 * n)
+    res = core.run_tlc(ctx, "MC_StorageMany", "MC_StorageMany.cfg", env={"DATA_FILE": path}, timeout=900)
+    if not res.ok or res.distinct < n:
+        raise core.MachineryError(f"TLC did not judge the long history ({res.distinct} < {n})")
+    groups = {}
+    for v in core.parse_printed_json(res, tag="REJECT"):
+        groups.setdefault(v["why"], []).append(v["idx"])
+    for why, idxs in sorted(groups.items()):
+        ctx.violation(f"storage/many-addresses/{why}", f"{n} distinct addresses auto-created and looked up again: {why} fails for {len(idxs)} addresses, "
+                      f"first the {min(idxs)}-th", {"clause": why, "count": len(idxs), "first_index": min(idxs), "n": n, "origin": "many addresses"})
+
+
 def replay(ctx, rec):
+    if rec["record"].get("origin") == "many addresses":
+        many_addresses(ctx)
+        return ctx.finish()
     t = rec["record"]["trace"]
     sut = Sut()
     sut.build(t["init"])
